@@ -282,6 +282,171 @@ example : (run init [.define 0 "a" (.int 1), .newEnv 0, .set 1 "a" (.int 2), .ge
     [.unit, .scope 1, .unit, .val (.int 2), .err "undefined symbol 'zz'", .err "symbol contains '.'"] := by decide
 
 
+/-! ### A scope's own bindings are a dictionary, for every history (refinement)
+
+`BOp` = define a name / delete a name on ONE scope; `Dict.step` is the specification (a function from names to optional values); `tblStep` the
+model's table operations; `heapStep` the API calls `Define` / `Delete` on scope `i` of the heap. For ANY history the table answers as the dictionary does
+(`table_history_is_dictionary`), and `Get` on the scope answers the dictionary's binding when there is one and otherwise exactly what the rest of the
+chain answers (`scope_after_history_is_dictionary_then_chain`). A table that lets a deleted name come back (two places holding one name) breaks
+`assocDel_lookup_same`. -/
+
+theorem assocSet_lookup_other {β : Type} (name k : String) (v : β) (l : List (String × β)) (hk : k ≠ name) :
+    (assocSet name v l).lookup k = l.lookup k := by
+  induction l with
+  | nil =>
+    have : (k == name) = false := by simp [hk]
+    simp [assocSet, List.lookup, this]
+  | cons a rest ih =>
+    obtain ⟨n, x⟩ := a
+    by_cases hn : n = name
+    · subst hn
+      have : (k == n) = false := by simp [hk]
+      simp [assocSet, List.lookup, this]
+    · have h1 : (n == name) = false := by simp [hn]
+      simp only [assocSet, h1, Bool.false_eq_true, if_false, List.lookup]
+      cases hkn : (k == n) <;> simp [ih]
+
+theorem assocDel_lookup_same {β : Type} (name : String) (l : List (String × β)) :
+    (assocDel name l).lookup name = none := by
+  induction l with
+  | nil => simp [assocDel]
+  | cons a rest ih =>
+    obtain ⟨n, x⟩ := a
+    by_cases hn : n = name
+    · subst hn
+      simp [assocDel, ih]
+    · have h1 : (n == name) = false := by simp [hn]
+      have h2 : (name == n) = false := by simp [Ne.symm hn]
+      simp only [assocDel, h1, Bool.false_eq_true, if_false, List.lookup, h2, ih]
+
+theorem assocDel_lookup_other {β : Type} (name k : String) (l : List (String × β)) (hk : k ≠ name) :
+    (assocDel name l).lookup k = l.lookup k := by
+  induction l with
+  | nil => simp [assocDel]
+  | cons a rest ih =>
+    obtain ⟨n, x⟩ := a
+    by_cases hn : n = name
+    · subst hn
+      have : (k == n) = false := by simp [hk]
+      simp [assocDel, List.lookup, this, ih]
+    · have h1 : (n == name) = false := by simp [hn]
+      simp only [assocDel, h1, Bool.false_eq_true, if_false, List.lookup]
+      cases hkn : (k == n) <;> simp [ih]
+
+/-- one step of a binding history on one scope: bind `name` to `v`, or remove the binding of `name` -/
+inductive BOp where
+  | def_ (name : String) (v : V)
+  | del (name : String)
+
+/-- the specification: a scope's own bindings are a dictionary -/
+abbrev Dict := String → Option V
+
+def Dict.step (d : Dict) : BOp → Dict
+  | .def_ n v => fun k => if k = n then some v else d k
+  | .del n => fun k => if k = n then none else d k
+
+/-- the table of the model -/
+def tblStep (l : List (String × V)) : BOp → List (String × V)
+  | .def_ n v => assocSet n v l
+  | .del n => assocDel n l
+
+theorem tblStep_refines (l : List (String × V)) (op : BOp) (k : String) :
+    (tblStep l op).lookup k = Dict.step (fun k => l.lookup k) op k := by
+  cases op with
+  | def_ n v =>
+    by_cases hk : k = n
+    · subst hk; simp [tblStep, Dict.step, assocSet_lookup]
+    · simp [tblStep, Dict.step, hk, assocSet_lookup_other n k v l hk]
+  | del n =>
+    by_cases hk : k = n
+    · subst hk; simp [tblStep, Dict.step, assocDel_lookup_same]
+    · simp [tblStep, Dict.step, hk, assocDel_lookup_other n k l hk]
+
+/-- ANY history of definitions and deletions on one table is the same history on a dictionary: what a name denotes afterwards
+depends on the last operation on that name only - a deleted name is gone whatever was defined and deleted before. -/
+theorem table_history_is_dictionary (ops : List BOp) : ∀ (l : List (String × V)) (k : String),
+    (ops.foldl tblStep l).lookup k = ops.foldl Dict.step (fun k => l.lookup k) k := by
+  induction ops with
+  | nil => intro l k; rfl
+  | cons op rest ih =>
+    intro l k
+    simp only [List.foldl]
+    rw [ih (tblStep l op) k]
+    have : (fun k => (tblStep l op).lookup k) = Dict.step (fun k => l.lookup k) op := by
+      funext k'; exact tblStep_refines l op k'
+    rw [this]
+
+
+/-! the same at the level of the heap of scopes -/
+
+def BOp.ok : BOp → Bool
+  | .def_ n _ => !hasDot n
+  | .del _ => true
+
+def heapStep (i : Nat) (h : Heap) : BOp → Heap
+  | .def_ n v => (define h i n v).2
+  | .del n => (EnvApi.delete h i n).2
+
+theorem modScope_same (h : Heap) (i : Nat) (f : Scope → Scope) (s : Scope) (hs : h[i]? = some s) :
+    (modScope h i f)[i]? = some (f s) := by
+  have hi : i < h.size := by
+    rcases Nat.lt_or_ge i h.size with hlt | hge
+    · exact hlt
+    · simp [Array.getElem?_eq_none hge] at hs
+  have hs' : h[i] = s := by simpa [Array.getElem?_eq_getElem hi] using hs
+  simp [modScope, hi, hs']
+
+theorem heapStep_scope (i : Nat) (h : Heap) (op : BOp) (s : Scope) (hs : h[i]? = some s) (hok : op.ok = true) :
+    (heapStep i h op)[i]? = some { s with values := tblStep s.values op } := by
+  have hi : i < h.size := by
+    rcases Nat.lt_or_ge i h.size with hlt | hge
+    · exact hlt
+    · simp [Array.getElem?_eq_none hge] at hs
+  cases op with
+  | def_ n v =>
+    have hd : hasDot n = false := by simpa [BOp.ok] using hok
+    simp only [heapStep, define, hd, hi, if_true, Bool.false_eq_true, if_false, tblStep]
+    exact modScope_same h i _ s hs
+  | del n =>
+    simp only [heapStep, EnvApi.delete, tblStep]
+    exact modScope_same h i _ s hs
+
+theorem heap_history_scope (i : Nat) (ops : List BOp) : ∀ (h : Heap) (s : Scope), h[i]? = some s → (∀ op ∈ ops, op.ok = true) →
+    (ops.foldl (heapStep i) h)[i]? = some { s with values := ops.foldl tblStep s.values } := by
+  induction ops with
+  | nil => intro h s hs _; simpa using hs
+  | cons op rest ih =>
+    intro h s hs hok
+    simp only [List.foldl]
+    have h1 := heapStep_scope i h op s hs (hok op (by simp))
+    have := ih (heapStep i h op) _ h1 (fun o ho => hok o (by simp [ho]))
+    simpa using this
+
+/-- What a scope answers after ANY history of definitions and deletions made on it: the binding the DICTIONARY semantics gives the name when
+there is one (the last definition not followed by a deletion), and otherwise exactly what the rest of the chain answers - the external lookup of the
+scope, then the parent. In particular a name deleted last is looked up outside again, whatever was defined and deleted in the scope before. -/
+theorem scope_after_history_is_dictionary_then_chain (i : Nat) (ops : List BOp) (h : Heap) (s : Scope) (hs : h[i]? = some s)
+    (hok : ∀ op ∈ ops, op.ok = true) (fuel : Nat) (name : String) :
+    EnvApi.get (ops.foldl (heapStep i) h) (fuel + 1) i name =
+      match ops.foldl Dict.step (fun k => s.values.lookup k) name with
+      | some v => .val v
+      | none => match (if s.ext then extGet name else none) with
+        | some v => .val v
+        | none => match s.parent with
+          | some p => EnvApi.get (ops.foldl (heapStep i) h) fuel p name
+          | none => .err ("undefined symbol '" ++ name ++ "'") := by
+  have hsc := heap_history_scope i ops h s hs hok
+  have hd := table_history_is_dictionary ops s.values name
+  simp only [EnvApi.get, hsc]
+  rw [hd]
+  rfl
+
+
+/-- the history of the seeded change that motivated the family (round 11, C04-21): define a, define b, delete a, define b again, delete b - in a child scope
+whose parent binds b: the child answers with the parent's b -/
+example : EnvApi.get (([BOp.def_ "a" (.int 1), .def_ "b" (.int 2), .del "a", .def_ "b" (.int 3), .del "b"]).foldl (heapStep 1)
+    #[⟨none, [("b", .int 200)], [], false⟩, ⟨some 0, [], [], false⟩]) 3 1 "b" = .val (.int 200) := by decide
+
 /-! ### The environment API in the source (regenerated: Gen/EnvFlow)
 
 Every leaf statement of every method of the environment API (env/env.go, envValues.go, envTypes.go), with the conditions it stands
